@@ -254,13 +254,13 @@ def obsArg (ws rhs : List String) : Option (String × Arg × Cache × Cache) := 
   let wantHex := kv rhs "hex" != "-"
   let wantView := kv rhs "view" != "-"
   match encode fill r.2 c0.data.length off a with
-  | none => some (s!"size={r.1} cache={showCache r.2.data} cap={r.2.cap} encode-faults", a, c0, r.2)
+  | none => some (s!"size={r.1} cache={showCache r.2.data} encode-faults", a, c0, r.2)
   | some (bytes, i') =>
     let tail : Bytes := [0xAB, 0, 0xCD]
     let (consumed, vw) := match decode (shapeOf a) off (bytes ++ tail) with
       | none => ("fault", "fault")
       | some (v, rest) => (toString ((bytes ++ tail).length - rest.length), showVal v)
-    some (s!"size={r.1} cache={showCache r.2.data} cap={r.2.cap} written={bytes.length} idx={i'} hex={if wantHex then hexOrDot bytes else "-"} consumed={consumed} view={if wantView then vw else "-"}",
+    some (s!"size={r.1} cache={showCache r.2.data} written={bytes.length} idx={i'} hex={if wantHex then hexOrDot bytes else "-"} consumed={consumed} view={if wantView then vw else "-"}",
           a, c0, r.2)
 
 def obsStmt (ws rhs : List String) : Option (String × List Arg × Cache × Cache) := do
@@ -270,13 +270,13 @@ def obsStmt (ws rhs : List String) : Option (String × List Arg × Cache × Cach
   let r := sizeStatement c0 args
   let wantHex := kv rhs "hex" != "-"
   match encodeL fill r.2 0 off args with
-  | none => some (s!"total={r.1} cache={showCache r.2.data} cap={r.2.cap} encode-faults", args, c0, r.2)
+  | none => some (s!"total={r.1} cache={showCache r.2.data} encode-faults", args, c0, r.2)
   | some (bytes, _) =>
     let tail : Bytes := [0xAB, 0, 0xCD]
     let consumed := match decodeL (shapesOf args) off (bytes ++ tail) with
       | none => "fault"
       | some (_, rest) => toString ((bytes ++ tail).length - rest.length)
-    some (s!"total={r.1} cache={showCache r.2.data} cap={r.2.cap} written={bytes.length} hex={if wantHex then hexOrDot bytes else "-"} consumed={consumed} nargs={args.length}",
+    some (s!"total={r.1} cache={showCache r.2.data} written={bytes.length} hex={if wantHex then hexOrDot bytes else "-"} consumed={consumed} nargs={args.length}",
           args, c0, r.2)
 
 def obsE2E (ws : List String) : Option (String × List Arg) := do
@@ -396,7 +396,11 @@ def run : IO UInt32 := do
         st := { st with problems := st.problems + 1 }
       | some m =>
         -- `alloc` lines carry measured fields after the modelled ones; compare the modelled prefix only
-        let implS := if kind == "alloc" then " ".intercalate (rhs.take 3) else rhsS
+        -- C04 compares contents, not the capacity of the size cache (its theorems hold for every capacity; the capacity
+        -- and its growth are C11's subject, compared on the `alloc` lines)
+        let implS := if kind == "alloc" then " ".intercalate (rhs.take 3)
+          else if kind == "arg" || kind == "stmt" then " ".intercalate (rhs.filter (fun w => !w.startsWith "cap="))
+          else rhsS
         if m != implS then
           IO.println s!"MISMATCH case={id} kind={kind} {" ".intercalate (rest.take 1)}: impl=[{(implS.take 600).toString}] model=[{(m.take 600).toString}] a={((kv rest "a").take 400).toString}"
           st := { st with mismatches := st.mismatches + 1 }
